@@ -134,8 +134,9 @@ func (server *SugarDB) keysExist(ctx context.Context, keys []string) map[string]
 	exists := make(map[string]bool, len(keys))
 
 	for _, key := range keys {
-		_, ok := server.store[database][key]
-		exists[key] = ok
+		entry, ok := server.store[database][key]
+		// A key whose deadline has passed no longer exists, whether or not it has been collected yet.
+		exists[key] = ok && !server.isExpired(entry)
 	}
 
 	return exists
@@ -149,11 +150,16 @@ func (server *SugarDB) getExpiry(ctx context.Context, key string) time.Time {
 	database := ctx.Value("Database").(int)
 
 	entry, ok := server.store[database][key]
-	if !ok {
+	if !ok || server.isExpired(entry) {
 		return time.Time{}
 	}
 
 	return entry.ExpireAt
+}
+
+// isExpired reports whether the entry carries a deadline that the server clock has passed.
+func (server *SugarDB) isExpired(entry internal.KeyData) bool {
+	return entry.ExpireAt != (time.Time{}) && entry.ExpireAt.Before(server.clock.Now())
 }
 
 func (server *SugarDB) getValues(ctx context.Context, keys []string) map[string]interface{} {
@@ -227,8 +233,9 @@ func (server *SugarDB) setValues(ctx context.Context, entries map[string]interfa
 
 	for key, value := range entries {
 		expireAt := time.Time{}
-		if _, ok := server.store[database][key]; ok {
-			expireAt = server.store[database][key].ExpireAt
+		if entry, ok := server.store[database][key]; ok && !server.isExpired(entry) {
+			// Only a live entry passes its deadline on; a new value written over an expired key starts without one.
+			expireAt = entry.ExpireAt
 		}
 		server.store[database][key] = internal.KeyData{
 			Value:    value,
@@ -268,14 +275,23 @@ func (server *SugarDB) setExpiry(ctx context.Context, key string, expireAt time.
 
 	database := ctx.Value("Database").(int)
 
+	// A key that does not exist (any more) cannot be given a deadline: writing one would create an entry without a value.
+	if _, ok := server.store[database][key]; !ok {
+		return
+	}
+
 	server.store[database][key] = internal.KeyData{
 		Value:    server.store[database][key].Value,
 		ExpireAt: expireAt,
 	}
 
-	// If the slice of keys associated with expiry time does not contain the current key, add the key.
+	// Keep the index of volatile keys in step: a key with a deadline is listed, a key whose deadline was removed is not.
 	server.keysWithExpiry.rwMutex.Lock()
-	if !slices.Contains(server.keysWithExpiry.keys[database], key) {
+	if expireAt == (time.Time{}) {
+		server.keysWithExpiry.keys[database] = slices.DeleteFunc(server.keysWithExpiry.keys[database], func(k string) bool {
+			return k == key
+		})
+	} else if !slices.Contains(server.keysWithExpiry.keys[database], key) {
 		server.keysWithExpiry.keys[database] = append(server.keysWithExpiry.keys[database], key)
 	}
 	server.keysWithExpiry.rwMutex.Unlock()
